@@ -1,6 +1,12 @@
 """C06 — squawk equals the octal identity code of the latest DF5/DF21 reply."""
 import core, gen, frames as F
 
+def squawk_of(id13):
+    """the four octal digits A B C D of the identity field C1 A1 C2 A2 C4 A4 X B1 D1 B2 D2 B4 D4, as the number ABCD"""
+    b = [(id13 >> (12 - k)) & 1 for k in range(13)]
+    c1, a1, c2, a2, c4, a4, _x, b1, d1, b2, d2, b4, d4 = b
+    return (a4 * 4 + a2 * 2 + a1) * 1000 + (b4 * 4 + b2 * 2 + b1) * 100 + (c4 * 4 + c2 * 2 + c1) * 10 + (d4 * 4 + d2 * 2 + d1)
+
 class C06:
     id = "C06"
     lean_modules = ["SqModel.Props.C06", "SqModel.Proofs.Bridge"]
@@ -97,6 +103,37 @@ class C06:
                     return
                 rep.nontriv(("other", kinds[i % len(kinds)], u, r))
 
+    def same_ap(self, rep, run, rng, tier, driver_ok):
+        """two different DF5 (or DF4 then DF5) replies of one aircraft whose 32 header bits differ by a multiple of the CRC generator
+        have the same AP field: the later one still decides the squawk"""
+        G = F.GEN
+        for h in range(20 if tier == "quick" else 400):
+            a = rng.randrange(1, 1 << 24)
+            f1 = F.df5(rng.randrange(8), rng.randrange(32), rng.randrange(64), rng.randrange(8192), a)
+            h1 = int(f1, 16) >> 24
+            q = rng.randrange(1, 8)
+            d = 0
+            for k in range(3):
+                if q >> k & 1:
+                    d ^= G << k
+            h2 = h1 ^ d
+            f2 = F.hexs((h2 << 24) | (int(f1, 16) & 0xFFFFFF), 56)
+            if (h2 >> 27) != 5:
+                continue
+            want = squawk_of(h2 & 0x1FFF)
+            for (u, r) in ((False, False), (True, False)):
+                ops = ["reset", gen.cfg_op(use_update=u, relaxed=r)] + gen.seg([F.df11(5, a, 0), f1, f2]) + ["dump"]
+                impl, _, model = run.execute(ops, model=driver_ok)
+                rep.evaluations += 3; rep.traces += 1
+                got = gen.parse_dump(impl).get(a, {}).get("squawk")
+                if got is None or got == "-" or int(got) != want:
+                    rep.impl_spec_failures += 1
+                    rep.violation(f"DF5 replies {f1} then {f2} of aircraft {a:06X} (same AP field): squawk {got} shown, the later reply says {want:04d}",
+                                  {"property": "C06", "ops": ops, "frames": [f1, f2], "expected": want}, found_input=True)
+                    return False
+                rep.nontriv(("same-ap", f2, u))
+        return True
+
     def explore(self, rep, run, rng, tier, driver_ok):
         codes = list(range(8192))  # four octal digits and the X bit
         self.sweep(rep, run, rng, codes, "all 8192 ID13 fields x DF5/DF21 x -U/-R x first/later frame")
@@ -104,6 +141,7 @@ class C06:
             for _ in range(3):
                 self.sweep(rep, run, rng, codes, "repeat with fresh payloads")
         self.others(rep, run, rng, 300 if tier == "quick" else 3000)
+        self.same_ap(rep, run, rng, tier, driver_ok)
 
     def replay(self, rep, run, obj, driver_ok):
         ops = obj.get("ops")
